@@ -93,6 +93,7 @@ class Summary:
     assume: list = field(default_factory=list)
     note: str = ""
     raises_if: Optional[str] = None     # the statement raises exactly under this condition (evaluated before the binds)
+    capture: tuple = ()                 # ghost names bound to the (evaluated) positional arguments of the summarised call
     subscripts: bool = False            # still generate the bounds obligation of every element subscript `a[i]` / `a[i, j]`
                                         # that occurs in the statement (a known array, no slices) and perform its element
                                         # stores with an unknown value: only the *values* are abstracted, not the accesses
